@@ -118,6 +118,10 @@ impl Write for SimDest {
                 accept = accept.min((*k as usize).max(1));
                 Ok(accept)
             }
+            Some(DestFx::Zero) => {
+                accept = 0;
+                Ok(0)
+            }
             None => Ok(accept),
         };
         if res.is_ok() && accept > 0 {
